@@ -66,6 +66,11 @@ fn contains_all(have: &[Answer], want: &[Answer]) -> bool {
 }
 
 pub fn eval(case: &Case, ctx: &Ctx) -> CaseInfo {
+    eval_with(case, ctx, M, S_MAX, 256)
+}
+
+/// `m` = obligations per branch, `s_max` = step budget of a branch run alone
+pub fn eval_with(case: &Case, ctx: &Ctx, m_obl: usize, s_max: u64, slack: u64) -> CaseInfo {
     let mut info = CaseInfo::default();
     let whole = place(case, case.branches.iter().map(|(g, _)| g.clone()).collect());
     let desc = whole.show();
@@ -76,7 +81,7 @@ pub fn eval(case: &Case, ctx: &Ctx) -> CaseInfo {
     let mut per_branch = vec![];
     for (g, _) in &case.branches {
         let alone = place(&Case { form: 0, ..case.clone() }, vec![g.clone()]);
-        let out = run::run(&alone, Mode::Bfs, Limits::first(M, S_MAX));
+        let out = run::run(&alone, Mode::Bfs, Limits::first(m_obl, s_max));
         if let End::Panic(pi) = &out.end {
             info.fail(format!("C07:panic:{}", pi.key()), format!("{}\n  panicked: {} at {}", alone.show(), pi.message, pi.location));
             return info;
@@ -120,16 +125,24 @@ pub fn eval(case: &Case, ctx: &Ctx) -> CaseInfo {
     if obligations.is_empty() {
         return CaseInfo { skip: Some("no-obligations"), ..info };
     }
-    let bound = 256 * max_cost + 10_000;
+    let bound = slack * max_cost + 10_000;
     let mut found = false;
     let mut last = None;
     for factor in [1u64, 10] {
-        let mut got: Vec<Answer> = vec![];
-        let obl = obligations.clone();
+        // incremental multiset bookkeeping: how many copies of each wanted answer are still missing
+        let mut missing: std::collections::HashMap<(Term, usize), usize> = std::collections::HashMap::new();
+        for w in &obligations {
+            *missing.entry((w.terms[0].clone(), w.cons.len())).or_insert(0) += 1;
+        }
+        let mut open = obligations.len();
         let out = run::run_until(&whole, Mode::Bfs, Limits { max_answers: 20_000, budget: bound * factor }, &mut |a, _| {
-            got.push(a.clone());
-            // cheap test first: only re-check when the new answer is one of the wanted terms
-            obl.iter().any(|w| w.terms[0] == a.terms[0]) && contains_all(&got, &obl)
+            if let Some(n) = missing.get_mut(&(a.terms[0].clone(), a.cons.len())) {
+                if *n > 0 {
+                    *n -= 1;
+                    open -= 1;
+                }
+            }
+            open == 0
         });
         if let End::Panic(pi) = &out.end {
             info.fail(format!("C07:panic:{}", pi.key()), format!("{}\n  panicked: {} at {}", desc, pi.message, pi.location));
@@ -157,7 +170,7 @@ pub fn eval(case: &Case, ctx: &Ctx) -> CaseInfo {
             format!(
                 "{}\n  answers each branch produces on its own within {} steps: {}\n  not produced by the whole disjunction within {} steps (10x the bound {}): {}\n  answers seen: {} (end {:?})",
                 desc,
-                S_MAX,
+                s_max,
                 run::show_answers(&obligations),
                 bound * 10,
                 bound,
@@ -174,6 +187,64 @@ fn run_family(bytes: &[u8], ctx: &Ctx) -> CaseInfo {
     let mut s = Source::new(bytes);
     let c = decode(&mut s);
     eval(&c, ctx)
+}
+
+/// Scale: disjunctions of up to 200 branches with a few producers / divergers among them, and
+/// divergers buried under hundreds of pending conjunctions next to a branch with many obligations.
+fn run_scale(bytes: &[u8], ctx: &Ctx) -> CaseInfo {
+    use crate::ast::Rel;
+    use crate::gen::scale;
+    let mut s = Source::new(bytes);
+    let thorough = ctx.tier == Tier::Thorough;
+    let mut next_var: VarId = 2;
+    let placement = s.below(5);
+    let form = if s.flag(30) { 1 } else { 0 };
+    let q = Term::Var(0);
+    let (branches, m_obl): (Vec<(Vec<Goal>, BranchKind)>, usize) = if s.flag(128) {
+        // wide
+        let k = scale::size(&mut s, if thorough { 600 } else { 200 }).max(2);
+        let mut br: Vec<(Vec<Goal>, BranchKind)> = (0..k).map(|i| (vec![Goal::Eq(q.clone(), Term::Int(1000 + i as i64))], BranchKind::Finite)).collect();
+        let nspecial = 1 + s.below(3);
+        for j in 0..nspecial {
+            let pos = match s.weighted(&[2, 2, 3]) {
+                0 => 0,
+                1 => 1.min(k - 1),
+                _ => s.below(k),
+            };
+            let (g, kind) = gen_branch(&mut s, 0, 10 * (j as i64 + 1), &mut next_var);
+            // the nat-based producer yields ever longer answers; when a scheduler under test is
+            // unfair the run then spends its time reifying them instead of taking steps
+            let grows = g.iter().any(|x| x.any(&|y| matches!(y, Goal::Call(Rel::Nat, _))));
+            br[pos] = if grows { (vec![Goal::Anyo(vec![Goal::Eq(q.clone(), Term::Int(10 * (j as i64 + 1)))])], BranchKind::Producer) } else { (g, kind) };
+        }
+        (br, 2)
+    } else {
+        // deep: a silent diverger below n pending conjunctions, with productive siblings
+        let n = scale::size(&mut s, scale::cap(thorough));
+        let deep = (vec![Goal::Call(Rel::DeepNever, vec![Term::list(vec![Term::Int(0); n])])], BranchKind::Diverger);
+        let sibling = match s.weighted(&[3, 2, 2]) {
+            0 => (vec![Goal::Always, Goal::Eq(q.clone(), Term::Int(1))], BranchKind::Producer),
+            1 => (vec![Goal::Call(Rel::Member, vec![q.clone(), Term::ints(&(0..60).collect::<Vec<i64>>())])], BranchKind::Finite),
+            _ => (vec![Goal::Call(Rel::Nat, vec![q.clone()])], BranchKind::Producer),
+        };
+        let mut br = vec![deep, sibling];
+        if s.flag(100) {
+            br.push(gen_branch(&mut s, 0, 30, &mut next_var));
+        }
+        if s.flag(128) {
+            br.swap(0, 1);
+        }
+        (br, 40)
+    };
+    let case = Case { branches, placement, form, next_var };
+    if std::env::var("PVH_SHOW").is_ok() {
+        let d = place(&case, case.branches.iter().map(|(g, _)| g.clone()).collect()).show();
+        eprintln!("SHOW {}", d);
+    }
+    let mut info = eval_with(&case, ctx, m_obl, 6_000, 64);
+    truncate_sample(&mut info, 400);
+    info.class(if m_obl == 2 { "scale:wide" } else { "scale:deep-diverger" });
+    info
 }
 
 fn fixed_never_first(ctx: &Ctx) -> CaseInfo {
@@ -199,9 +270,12 @@ fn fixed_two_always(ctx: &Ctx) -> CaseInfo {
 pub fn def() -> PropertyDef {
     PropertyDef {
         id: "C07",
-        rule: "a disjunction of 2-4 branches (finite goals with distinct markers, infinite producers loop{q==c} / [always(), q==c] / nat-based, silent divergers never() / loop{false} / a self-calling closure / `q==c, never()`), placed at top level, after a deterministic prefix, under fresh, inside an outer conde branch, or behind never() in an outer conde, as conde or as the body of loop{}. Oracle (bounded liveness, engine steps from the hook): each branch alone under 2000 steps yields its first <=3 answers (obligations, cost s_i); the whole disjunction must yield all obligations within 256*max(s_i)+10000 steps, re-run with 10x before reporting. Non-trivial = an infinite or diverging branch precedes a branch that has obligations; distinct = hash of the printed program",
+        rule: "a disjunction of 2-4 branches (finite goals with distinct markers, infinite producers loop{q==c} / [always(), q==c] / nat-based, silent divergers never() / loop{false} / a self-calling closure / `q==c, never()`), placed at top level, after a deterministic prefix, under fresh, inside an outer conde branch, or behind never() in an outer conde, as conde or as the body of loop{}. Oracle (bounded liveness, engine steps from the hook): each branch alone under 2000 steps yields its first <=3 answers (obligations, cost s_i); the whole disjunction must yield all obligations within 256*max(s_i)+10000 steps, re-run with 10x before reporting. Non-trivial = an infinite or diverging branch precedes a branch that has obligations; distinct = hash of the printed program. Family `scale`: the same oracle for disjunctions of up to 200 (thorough 600) branches with 1-3 producers / divergers among finite ones (2 obligations per branch), and for a silent diverger buried below up to 400 (thorough 2000) pending conjunctions (deepnever) next to productive siblings with 40 obligations each (branches alone get 6000 steps, the whole disjunction 64*max(s_i)+10000)",
         assumptions: vec!["bounded liveness only: a fair scheduler more than ~2500x slower than the bound would be misreported; needs the step-counter hook"],
-        families: vec![Family { name: "disjunctions", max_len: 64, quick: 60_000, thorough: 1_200_000, run: run_family }],
+        families: vec![
+            Family { name: "disjunctions", max_len: 64, quick: 60_000, thorough: 1_200_000, run: run_family },
+            Family { name: "scale", max_len: 48, quick: 3_000, thorough: 50_000, run: run_scale },
+        ],
         fixed: vec![Fixed { name: "never-before-finite", run: fixed_never_first }, Fixed { name: "two-always-producers", run: fixed_two_always }],
         witnesses: vec![],
         exhaustive: None,
